@@ -201,6 +201,48 @@ pub struct RCase {
     pub grow: Vec<Grow>,
     /// edits to foreign records (isolation)
     pub foreign: Vec<Grow>,
+    /// (6) a history of permission-table operations over several users whose ids overlap the stream ids
+    #[serde(default)]
+    pub hist: Vec<PHOp>,
+}
+
+#[derive(Debug, Clone, PartialEq, Serialize, Deserialize)]
+pub enum PHOp {
+    /// user created / loaded with this record (None = no permissions)
+    Init { user: u32, spec: Option<PermSpec> },
+    /// update_permissions (the server deletes and re-initialises)
+    Update { user: u32, spec: Option<PermSpec> },
+    /// user deleted
+    Delete { user: u32 },
+}
+
+fn phop_s() -> BoxedStrategy<PHOp> {
+    let spec = || prop_oneof![1 => Just(None), 6 => perm_spec(4, 3).prop_map(Some)];
+    prop_oneof![
+        4 => (1u32..=4, spec()).prop_map(|(user, spec)| PHOp::Init { user, spec }),
+        4 => (1u32..=4, spec()).prop_map(|(user, spec)| PHOp::Update { user, spec }),
+        1 => (1u32..=4).prop_map(|user| PHOp::Delete { user }),
+    ]
+    .boxed()
+}
+
+/// all verdicts of `u` over streams 1..=4 x topics 1..=3
+fn verdict_table(p: &Permissioner, u: u32) -> Result<Vec<bool>, (Rule, u32, u32, String)> {
+    let mut out = Vec::with_capacity(RULES.len() * 12);
+    for s in 1..=4u32 {
+        for t in 1..=3u32 {
+            for r in RULES.iter() {
+                match std::panic::catch_unwind(std::panic::AssertUnwindSafe(|| eval(p, *r, u, s, t))) {
+                    Ok(x) => out.push(x.is_ok()),
+                    Err(_) => {
+                        let ps = take_panics();
+                        return Err((*r, s, t, ps.last().map(|p| format!("{} at {}", p.message, p.location)).unwrap_or_default()));
+                    }
+                }
+            }
+        }
+    }
+    Ok(out)
 }
 
 /// last-wins de-duplication (a Vec spec may name a stream / topic twice; the map keeps the last)
@@ -317,8 +359,8 @@ fn foreign_s() -> BoxedStrategy<Grow> {
 impl Engine for PermRules {
     type Case = RCase;
     fn strategy(&self, _p: &Params) -> BoxedStrategy<RCase> {
-        (perm_spec(3, 3), 1u32..=3, 1u32..=3, proptest::collection::vec(grow_s(), 0..4), proptest::collection::vec(foreign_s(), 0..3))
-            .prop_map(|(spec, stream, topic, grow, foreign)| RCase { spec, stream, topic, grow, foreign })
+        (perm_spec(3, 3), 1u32..=3, 1u32..=3, proptest::collection::vec(grow_s(), 0..4), proptest::collection::vec(foreign_s(), 0..3), proptest::collection::vec(phop_s(), 0..7))
+            .prop_map(|(spec, stream, topic, grow, foreign, hist)| RCase { spec, stream, topic, grow, foreign, hist })
             .boxed()
     }
     fn run(&self, case: &RCase, _p: &Params) -> Outcome {
@@ -415,11 +457,71 @@ impl Engine for PermRules {
             iso = next;
             // verdict base stays the original; foreign edits accumulate
         }
+        // (6) several users, histories: every user's verdicts are a function of that user's CURRENT record only -
+        // not of other users' records (user ids 1..4 deliberately collide with stream ids 1..4) and not of
+        // records the user held before an update / deletion. Oracle: a fresh Permissioner holding only that record.
+        if !case.hist.is_empty() {
+            let mut p = Permissioner::default();
+            let mut model: std::collections::BTreeMap<u32, Option<PermSpec>> = Default::default();
+            let mut updates = 0;
+            for op in &case.hist {
+                match op {
+                    PHOp::Init { user, spec } | PHOp::Update { user, spec } => {
+                        let perms = spec.as_ref().map(permgen::build);
+                        if matches!(op, PHOp::Update { .. }) && model.contains_key(user) {
+                            p.update_permissions_for_user(*user, perms);
+                            updates += 1;
+                        } else if model.contains_key(user) {
+                            // a user id is initialised once per lifetime: re-creation = delete, then init
+                            p.delete_permissions_for_user(*user);
+                            p.init_permissions_for_user(*user, perms);
+                        } else {
+                            p.init_permissions_for_user(*user, perms);
+                        }
+                        model.insert(*user, spec.as_ref().map(canon_spec));
+                    }
+                    PHOp::Delete { user } => {
+                        if model.remove(user).is_some() {
+                            p.delete_permissions_for_user(*user);
+                            updates += 1;
+                        }
+                    }
+                }
+            }
+            for u in 1..=4u32 {
+                let mut fresh = Permissioner::default();
+                if let Some(spec) = model.get(&u) {
+                    fresh.init_permissions_for_user(u, spec.as_ref().map(permgen::build));
+                }
+                let (got, want) = match (verdict_table(&p, u), verdict_table(&fresh, u)) {
+                    (Ok(a), Ok(b)) => (a, b),
+                    (Err((r, s, t, m)), _) | (_, Err((r, s, t, m))) => {
+                        out.failure = Some(fail("permission-evaluation-panics", format!("{:?}(user {u}, stream {s}, topic {t}) panicked after the history {:?}: {m}", r, case.hist), r));
+                        return out;
+                    }
+                };
+                out.steps += got.len() as u64;
+                if let Some(i) = (0..got.len()).find(|i| got[*i] != want[*i]) {
+                    let r = RULES[i % RULES.len()];
+                    let (s, t) = ((i / RULES.len()) / 3 + 1, (i / RULES.len()) % 3 + 1);
+                    out.failure = Some(fail("verdict-depends-on-other-users-or-history", format!(
+                        "{:?}(user {u}, stream {s}, topic {t}) is {} after the permission history {:?}, but {} for a fresh table holding only user {u}'s current record {:?}",
+                        r, if got[i] { "ALLOWED" } else { "denied" }, case.hist, if want[i] { "allowed" } else { "DENIED" }, model.get(&u)), r));
+                    return out;
+                }
+            }
+            if model.len() >= 2 {
+                out.label("several-users-with-records");
+            }
+            if updates > 0 {
+                out.label("record-updated-or-deleted");
+            }
+        }
         out.count(&format!("global:{}", spec.global), 1);
         out
     }
     fn rule(&self, _p: &Params) -> String {
-        "case = a generated permission record (10 global flags; optional stream records with 6 flags and an absent / empty / populated topic table with 4 flags per topic), a target stream and topic, a list of growth steps (set one more flag / add a record) and a list of foreign edits (records for another stream / another topic); all 35 Permissioner rules are evaluated on the real Permissioner: no panic, soundness against a reference lattice written from the documented hierarchy (most permissive reading), monotonicity under growth, isolation from foreign records, root allows everything; non-trivial = the record contains a stream record for the target stream".into()
+        "case = a generated permission record (10 global flags; optional stream records with 6 flags and an absent / empty / populated topic table with 4 flags per topic), a target stream and topic, a list of growth steps (set one more flag / add a record) and a list of foreign edits (records for another stream / another topic); all 35 Permissioner rules are evaluated on the real Permissioner: no panic, soundness against a reference lattice written from the documented hierarchy (most permissive reading), monotonicity under growth, isolation from foreign records, root allows everything; plus a generated history of init / update_permissions / delete over users 1..4 (ids colliding with stream ids 1..4) after which every user's verdicts for all rules x 4 streams x 3 topics must equal those of a fresh table holding only that user's current record; non-trivial = the record contains a stream record for the target stream".into()
     }
     fn assumptions(&self, _p: &Params) -> Vec<String> {
         vec!["the reference lattice is the most permissive reading of the doc comments, so soundness can only under-report".into()]
